@@ -199,6 +199,10 @@ func flat(pts [][2]int64, stride int) []float64 {
 		out = append(out, math.Ldexp(val(p[0]), curExp), math.Ldexp(val(p[1]), curExp))
 		for d := 2; d < stride; d++ {
 			switch {
+			case stride%2 == 0 && (i+d)%7 == 3:
+				out = append(out, math.NaN()) // now and then not a number at all
+			case stride%2 == 0 && (i+d)%7 == 5:
+				out = append(out, math.Inf(1-2*(i%2)))
 			case stride%2 == 0:
 				out = append(out, float64((i*7+d)%13)*1e12-5e12)
 			case d == 2:
